@@ -173,6 +173,50 @@ func c08Run(r *Run) {
 							}
 							return true
 						})
+						// a worklist loop appends to a queue; a linear chain walk does not. In a linear walk a
+						// failed lookup of the next class ends the walk legitimately.
+						isWorklist := false
+						lookupVars := map[string]bool{}
+						ast.Inspect(body, func(k ast.Node) bool {
+							if as, ok := k.(*ast.AssignStmt); ok && len(as.Rhs) == 1 {
+								if c, ok := ast.Unparen(as.Rhs[0]).(*ast.CallExpr); ok {
+									if id, ok := ast.Unparen(c.Fun).(*ast.Ident); ok && id.Name == "append" {
+										isWorklist = true
+									}
+									if se, ok := ast.Unparen(c.Fun).(*ast.SelectorExpr); ok && (strings.HasPrefix(se.Sel.Name, "Get") || strings.HasPrefix(se.Sel.Name, "Load")) {
+										for _, l := range as.Lhs {
+											if id, ok := l.(*ast.Ident); ok && id.Name != "_" {
+												lookupVars[id.Name] = true
+											}
+										}
+									}
+								}
+							}
+							return true
+						})
+						if !isWorklist {
+							ast.Inspect(body, func(k ast.Node) bool {
+								is, ok := k.(*ast.IfStmt)
+								if !ok {
+									return true
+								}
+								failed := false
+								ast.Inspect(is.Cond, func(c ast.Node) bool {
+									if id, ok := c.(*ast.Ident); ok && lookupVars[id.Name] {
+										failed = true
+									}
+									return true
+								})
+								if failed {
+									for _, st := range is.Body.List {
+										if rs, ok := st.(*ast.ReturnStmt); ok {
+											tailReturn[rs] = true // the chain cannot be followed any further
+										}
+									}
+								}
+								return true
+							})
+						}
 						// an unconditional `return false` that ends the loop body makes the loop a single pass
 						// (the recursion does the walking): it is not a premature answer
 						if n := len(body.List); n > 0 {
@@ -477,32 +521,42 @@ func c08Run(r *Run) {
 		}
 		info := npkg.TypesInfo
 		fk := funcKey(npkg, fd)
-		// iterates target.GetMethods() and compares len(GetParams())
+		// iterates target.GetMethods() and compares len(GetParams()) — in the function or in the
+		// package helpers it hands the method list to
 		iter, cmp, early := false, false, false
-		ast.Inspect(fd.Body, func(n ast.Node) bool {
-			switch x := n.(type) {
-			case *ast.RangeStmt:
-				src := exprStr(x.X)
-				if strings.Contains(src, "GetMethods") || strings.Contains(src, "Methods") {
-					iter = true
-				}
-				// an unconditional return true inside the loop ends the iteration early
-				for _, st := range x.Body.List {
-					if rs, ok := st.(*ast.ReturnStmt); ok && len(rs.Results) == 1 && exprStr(rs.Results[0]) == "true" {
-						early = true
+		for _, cf := range closure(npkg, fd) {
+			ast.Inspect(cf.Body, func(n ast.Node) bool {
+				switch x := n.(type) {
+				case *ast.RangeStmt:
+					src := exprStr(x.X)
+					if strings.Contains(src, "GetMethods") || strings.Contains(src, "Methods") {
+						iter = true
+					}
+					// an unconditional return true inside the loop ends the iteration early
+					for _, st := range x.Body.List {
+						if rs, ok := st.(*ast.ReturnStmt); ok && len(rs.Results) == 1 && exprStr(rs.Results[0]) == "true" {
+							early = true
+						}
+					}
+				case *ast.BinaryExpr:
+					if strings.Contains(exprStr(x.X), "GetParams") && strings.Contains(exprStr(x.Y), "GetParams") {
+						cmp = true
 					}
 				}
-			case *ast.BinaryExpr:
-				if strings.Contains(exprStr(x.X), "GetParams") && strings.Contains(exprStr(x.Y), "GetParams") {
-					cmp = true
-				}
-			}
-			return true
-		})
-		// methods collected before the loop (targetMethods := target.GetMethods())
+				return true
+			})
+		}
+		// methods collected before the loop (targetMethods := target.GetMethods()) or handed to a helper
 		ast.Inspect(fd.Body, func(n ast.Node) bool {
 			if as, ok := n.(*ast.AssignStmt); ok && len(as.Rhs) == 1 && strings.Contains(exprStr(as.Rhs[0]), "GetMethods") {
 				iter = true
+			}
+			if c, ok := n.(*ast.CallExpr); ok {
+				for _, a := range c.Args {
+					if strings.Contains(exprStr(a), "GetMethods") {
+						iter = true
+					}
+				}
 			}
 			return true
 		})
